@@ -253,11 +253,14 @@ func (c *tunnelChannel) Invoke(ctx context.Context, methodName string, req, resp
 	if err != nil {
 		return err
 	}
-	if err := str.SendMsg(req); err != nil {
+	// io.EOF from SendMsg or CloseSend means that the server has already
+	// finished the RPC successfully (which it may do without reading the whole
+	// request); RecvMsg below then returns the response and the result.
+	if err := str.SendMsg(req); err != nil && err != io.EOF {
 		return err
 	}
 	verifYield("client.invoke.afterSend")
-	if err := str.CloseSend(); err != nil {
+	if err := str.CloseSend(); err != nil && err != io.EOF {
 		return err
 	}
 	err = str.RecvMsg(resp)
